@@ -10,6 +10,8 @@ use std::collections::{BTreeMap, BTreeSet, HashMap};
 use std::io::Write;
 use std::panic::{AssertUnwindSafe, catch_unwind};
 
+mod sched;
+
 type Index = BTreeIndex<u64, u64>;
 type Model = BTreeMap<u64, BTreeSet<u64>>;
 
@@ -211,6 +213,162 @@ fn gen_op(r: &mut Rng, exact_only: bool, npk: u64, nk: u64) -> Op {
         93..=96 => Op::Point(k),
         _ => Op::Stats,
     }
+}
+
+/// the generator's own picture of the multimap, used only to aim operations at existing pairs / keys
+struct Sim {
+    m: Model,
+    allow_dup: bool,
+}
+impl Sim {
+    fn insert(&mut self, pk: u64, k: u64) {
+        if !self.allow_dup && self.m.get(&k).map(|s| !s.contains(&pk)).unwrap_or(false) {
+            return;
+        }
+        self.m.entry(k).or_default().insert(pk);
+    }
+    fn remove(&mut self, pk: u64, k: u64) {
+        if let Some(s) = self.m.get_mut(&k) {
+            s.remove(&pk);
+            if s.is_empty() {
+                self.m.remove(&k);
+            }
+        }
+    }
+    fn apply(&mut self, op: &Op) {
+        match op {
+            Op::Insert(pk, k) => self.insert(*pk, *k),
+            Op::Remove(pk, k) => self.remove(*pk, *k),
+            Op::InsertArray(pk, ks) => {
+                let conflict = !self.allow_dup && ks.iter().any(|k| self.m.get(k).map(|s| !s.contains(pk)).unwrap_or(false));
+                if !conflict { for k in ks { self.insert(*pk, *k); } }
+            }
+            Op::RemoveArray(pk, ks) => { for k in ks { self.remove(*pk, *k); } }
+            Op::Batch(pk, old, new) => {
+                let ins: Vec<u64> = new.iter().copied().filter(|k| !old.contains(k)).collect();
+                let conflict = !self.allow_dup && ins.iter().any(|k| self.m.get(k).map(|s| !s.contains(pk)).unwrap_or(false));
+                if !conflict {
+                    for k in &ins { self.insert(*pk, *k); }
+                    for k in old.iter().filter(|k| !new.contains(k)) { self.remove(*pk, *k); }
+                }
+            }
+            _ => {}
+        }
+    }
+    fn some_pair(&self, r: &mut Rng) -> Option<(u64, u64)> {
+        if self.m.is_empty() { return None; }
+        let ks: Vec<&u64> = self.m.keys().collect();
+        // prefer keys shared by several ids (a removal there shrinks the posting without emptying it)
+        let shared: Vec<&u64> = ks.iter().copied().filter(|k| self.m[*k].len() >= 2).collect();
+        let k = if !shared.is_empty() && r.chance(2, 3) { **r.pick(&shared) } else { **r.pick(&ks) };
+        let ids: Vec<&u64> = self.m[&k].iter().collect();
+        Some((**r.pick(&ids), k))
+    }
+    fn some_key(&self, r: &mut Rng) -> Option<u64> {
+        if self.m.is_empty() { return None; }
+        let ks: Vec<&u64> = self.m.keys().collect();
+        Some(**r.pick(&ks))
+    }
+}
+
+/// aim a freshly drawn operation at what is actually in the index
+fn aim(r: &mut Rng, sim: &Sim, op: Op, npk: u64) -> Op {
+    match op {
+        Op::Remove(pk, k) => match sim.some_pair(r) { Some((p, kk)) if r.chance(7, 10) => Op::Remove(p, kk), _ => Op::Remove(pk, k) },
+        Op::Insert(pk, k) => match sim.some_key(r) { Some(kk) if r.chance(4, 10) => Op::Insert(r.below(npk), kk), _ => Op::Insert(pk, k) },
+        Op::RemoveArray(pk, mut ks) => match sim.some_pair(r) {
+            Some((p, kk)) if r.chance(6, 10) => {
+                if ks.is_empty() { ks.push(kk); } else { ks[0] = kk; }
+                // further keys this id really holds
+                for (k2, ids) in sim.m.iter() { if ids.contains(&p) && ks.len() < 4 && r.chance(1, 2) { ks.push(*k2); } }
+                Op::RemoveArray(p, ks)
+            }
+            _ => Op::RemoveArray(pk, ks),
+        },
+        Op::Batch(pk, old, new) => match sim.some_pair(r) {
+            Some((p, _)) if r.chance(6, 10) => {
+                let held: Vec<u64> = sim.m.iter().filter(|(_, ids)| ids.contains(&p)).map(|(k, _)| *k).collect();
+                let mut old2 = held.clone();
+                old2.truncate(4);
+                let mut new2 = new.clone();
+                if let Some(h) = held.first() { if r.chance(1, 2) { new2.push(*h); } }
+                let _ = old;
+                Op::Batch(p, old2, new2)
+            }
+            _ => Op::Batch(pk, old, new),
+        },
+        o => o,
+    }
+}
+
+/// a whole history: random operations aimed at the current content, with "quiet windows" (flush, ONE
+/// mutation, flush / crash+reload) so that the dirty marking of every single mutation is what decides
+/// whether the next flush persists it
+fn gen_history(r: &mut Rng, exact_only: bool, allow_dup: bool, npk: u64, nk: u64, n: u64) -> Vec<Op> {
+    let mut sim = Sim { m: Model::new(), allow_dup };
+    let mut ops: Vec<Op> = Vec::new();
+    while (ops.len() as u64) < n {
+        let op = gen_op(r, exact_only, npk, nk);
+        let op = aim(r, &sim, op, npk);
+        let is_flush = matches!(op, Op::Flush);
+        sim.apply(&op);
+        if matches!(op, Op::CrashReload(_)) {
+            // the generator cannot know which side of the commit the crash fell on; forget
+            sim.m.clear();
+        }
+        ops.push(op);
+        if is_flush && r.chance(1, 2) {
+            // quiet window
+            let mut m;
+            loop {
+                let g = gen_op(r, exact_only, npk, nk);
+                m = aim(r, &sim, g, npk);
+                if matches!(m, Op::Insert(..) | Op::Remove(..) | Op::InsertArray(..) | Op::RemoveArray(..) | Op::Batch(..) | Op::Compact) { break; }
+            }
+            sim.apply(&m);
+            ops.push(m);
+            if exact_only || r.chance(1, 2) { ops.push(Op::Flush); } else { ops.push(Op::CrashReload(99)); sim.m.clear(); }
+        }
+    }
+    ops
+}
+
+/// dirty-tracking probe: build a state, make it clean (flush), apply ONE mutation of a given kind, persist,
+/// reload.  Whatever the mutation changed must have dirtied the buckets it changed.
+fn probe_history(r: &mut Rng, kind: u64, allow_dup: bool) -> Vec<Op> {
+    let (npk, nk) = if allow_dup { (12, 8) } else { (6, 12) };
+    let mut sim = Sim { m: Model::new(), allow_dup };
+    let mut ops = Vec::new();
+    for _ in 0..(6 + r.below(24)) {
+        let g = Op::Insert(r.below(npk), r.below(nk));
+        let op = aim(r, &sim, g, npk);
+        sim.apply(&op);
+        ops.push(op);
+    }
+    ops.push(Op::Flush);
+    for round in 0..2 {
+        let pair = sim.some_pair(r);
+        let m = match ((kind + round) % 9, pair) {
+            (0, Some((p, k))) => Op::Remove(p, k),
+            (1, Some((p, k))) => Op::RemoveArray(p, vec![k]),
+            (2, Some((p, _))) => {
+                let held: Vec<u64> = sim.m.iter().filter(|(_, ids)| ids.contains(&p)).map(|(k, _)| *k).collect();
+                Op::RemoveArray(p, held)
+            }
+            (3, Some((_, k))) => Op::Insert(100 + r.below(5), k),
+            (4, _) => Op::Insert(r.below(npk), 20 + r.below(4)),
+            (5, Some((_, k))) => Op::InsertArray(100 + r.below(5), vec![k, 20 + r.below(4), r.below(nk)]),
+            (6, Some((p, k))) => Op::Batch(p, vec![k], vec![r.below(nk), 20 + r.below(4)]),
+            (7, _) => Op::Compact,
+            (_, Some((p, k))) => Op::Remove(p, k),
+            (_, None) => Op::Insert(r.below(npk), r.below(nk)),
+        };
+        sim.apply(&m);
+        ops.push(m);
+        if round == 0 { ops.push(Op::Flush); } else { ops.push(Op::CrashReload(99)); }
+        ops.push(Op::Query(false, Spec::Ge(0), 99, 0));
+    }
+    ops
 }
 
 // ------------------------------------------------------------------ store <-> terms
@@ -857,7 +1015,7 @@ fn main() {
         let allow_dup = !r.chance(1, 4);
         let n = 1 + r.below(max_ops);
         let (npk, nk) = if allow_dup { (40, 16) } else { (6, 12) };
-        let ops: Vec<Op> = (0..n).map(|_| gen_op(&mut r, exact_only, npk, nk)).collect();
+        let ops: Vec<Op> = gen_history(&mut r, exact_only, allow_dup, npk, nk, n);
         *lens.entry(n / 10 * 10).or_insert(0) += 1;
         let res = catch_unwind(AssertUnwindSafe(|| {
             run_history(seq, overload, allow_dup, &ops, &mut sum, &mut out, seq % model_every == 0);
@@ -866,14 +1024,38 @@ fn main() {
             fail(&mut sum, "panic inside the index", json!({"seq": seq, "history": format!("{ops:?}")}));
         }
     }
+    let probes: u64 = arg_value(&args, "--probes").and_then(|s| s.parse().ok()).unwrap_or(54);
+    for p in 0..probes {
+        let mut r = rng.fork();
+        let allow_dup = p % 5 != 4;
+        let ops = probe_history(&mut r, p, allow_dup);
+        let overload = *r.pick(&[64usize, 64, 96]);
+        let res = catch_unwind(AssertUnwindSafe(|| {
+            run_history(1_000_000 + p, overload, allow_dup, &ops, &mut sum, &mut out, p % model_every == 0);
+        }));
+        if res.is_err() {
+            fail(&mut sum, "panic inside the index", json!({"probe": p, "history": format!("{ops:?}")}));
+        }
+    }
     legacy_cases(&mut rng, legacy, &mut sum, &mut out);
+    let t0 = std::time::Instant::now();
+    let ss = if arg_value(&args, "--sched").as_deref() == Some("0") { None } else { Some(sched::main(&args, &mut out)) };
+    let sched_json = match &ss {
+        Some(ss) => {
+            for f in &ss.failures { sum.failures.push(f.clone()); }
+            sum.evaluations += ss.schedules;
+            json!({"scenarios": ss.scenarios, "schedules": ss.schedules, "blocked_steps": ss.blocked, "distinct_outcomes": ss.distinct_outcomes,
+                   "yield_points_per_mutation": ss.yield_hist, "wall_ms": t0.elapsed().as_millis() as u64})
+        }
+        None => json!(null),
+    };
     let summary = json!({
         "kind": "summary", "evaluations": sum.evaluations, "histories": seqs, "oracle_failures": sum.failures.len(),
         "failures": sum.failures.iter().take(20).collect::<Vec<_>>(),
         "op_histogram": sum.op_hist, "history_lengths": lens, "flushes": sum.flushes,
         "flushes_with_2plus_dirty_buckets": sum.flushes_multi_dirty, "crash_points": sum.crash_points,
         "stats_with_migration": sum.migrations_seen, "unique_rejections": sum.unique_errors,
-        "early_stopped_queries": sum.early_stops, "legacy_loads": sum.legacy_loads,
+        "early_stopped_queries": sum.early_stops, "legacy_loads": sum.legacy_loads, "dirty_tracking_probes": probes, "schedule_explorer": sched_json,
     });
     writeln!(out, "{}", summary).unwrap();
 }
